@@ -110,12 +110,15 @@ def gen(rng, tier, run):
         case['root'] = 'brackets'
     elif r < 0.35:
         case['hidden'] = True
+    r = rng.random()
+    if r < 0.15:
+        case['status'] = rng.choice(['int', 'npint'])
     return case
 
 
 def shrink(case):
     ops = case['ops']
-    for key in ('root', 'hidden'):
+    for key in ('root', 'hidden', 'status'):
         if key in case:
             yield {k: v for k, v in case.items() if k != key}
     for i in range(len(ops) - 1):
@@ -144,6 +147,13 @@ def build_env(entries, root):
     dct = {}
     for t, status, outdir, p in entries:
         sub = {'status': TaskStatus(status), 'result': payload_pool()[p], 'p': p}
+        # a status is an IntEnum: the plain value (as stored by code that builds an environment by hand, or by numpy) is
+        # the same status for every accessor of Env
+        if _PFX.get('status') == 'int':
+            sub['status'] = int(status)
+        elif _PFX.get('status') == 'npint':
+            import numpy as np
+            sub['status'] = np.int64(status)
         if (t + p) % 3:      # the clocks the scheduler records (times of an earlier run: older than any file written now)
             sub['start_clock'] = 1.6e9 + 10 * t
             sub['end_clock'] = 1.6e9 + 10 * t + 1 + p
@@ -157,13 +167,13 @@ def dump_env(env, root):
     out = []
     for name, sub in env.items():
         outdir = sub.get('output_dir')
-        out.append([int(name.lstrip('.')[1:]), int(sub['status']) if hasattr(sub['status'], 'value') else sub['status'].value,
+        out.append([int(name.lstrip('.')[1:]), int(sub['status']) if hasattr(sub['status'], 'value') else int(sub['status']),
                     None if outdir is None else int(os.path.basename(outdir).lstrip('.')[1:]), sub.get('p')])
     return sorted(out)
 
 
 def status_code(sub):
-    return sub['status'].value
+    return int(sub['status'])
 
 
 def run_impl(case, run):
@@ -171,6 +181,7 @@ def run_impl(case, run):
     from valjean.cosette.env import Env
     # an output root whose name holds glob characters, task names that start with a dot: legal names
     _PFX['p'] = '.' if case.get('hidden') else ''
+    _PFX['status'] = case.get('status')
     root = tempfile.mkdtemp(prefix='c14_[1]x_' if case.get('root') == 'brackets' else 'c14_')
     outs = []
     sweep = {'files': 0, 'cuts': 0, 'bad': []}
@@ -180,11 +191,18 @@ def run_impl(case, run):
         for op in case['ops']:
             name = op[0]
             if name == 'write':
-                write_env(build_env(op[1], root), filename=FILENAME, fmt='pickle')
-                outs.append('ok')
+                try:
+                    write_env(build_env(op[1], root), filename=FILENAME, fmt='pickle')
+                    outs.append('ok')
+                except Exception as exc:  # pylint: disable=broad-except
+                    outs.append({'write_raised': f'{type(exc).__name__}: {exc}'[:200]})
             elif name == 'crash':
                 entries, n, cut = op[1], op[2], op[3]
-                write_env(build_env(entries[:n], root), filename=FILENAME, fmt='pickle')
+                try:
+                    write_env(build_env(entries[:n], root), filename=FILENAME, fmt='pickle')
+                except Exception as exc:  # pylint: disable=broad-except
+                    outs.append({'write_raised': f'{type(exc).__name__}: {exc}'[:200]})
+                    continue
                 t, _, outdir, _ = entries[n]
                 if outdir is not None:
                     full = pickle.dumps(Env({tn(t): build_env([entries[n]], root)[tn(t)]}))
@@ -229,7 +247,7 @@ def run_impl(case, run):
             elif name == 'read':
                 try:
                     env = read_env(root=root, names=[tn(t) for t in op[1]], filename=FILENAME, fmt='pickle')
-                    outs.append({'ok': [[int(k.lstrip('.')[1:]), sub['status'].value,
+                    outs.append({'ok': [[int(k.lstrip('.')[1:]), int(sub['status']),
                                          None if 'output_dir' not in sub else int(os.path.basename(sub['output_dir']).lstrip('.')[1:]),
                                          sub.get('p')] for k, sub in sorted(env.items())]})
                 except Exception as exc:  # pylint: disable=broad-except
@@ -318,6 +336,10 @@ def oracle(case, impl, run):
     for i, (op, out) in enumerate(zip(case['ops'], impl['outs'])):
         run.count('op:' + op[0])
         name = op[0]
+        if isinstance(out, dict) and 'write_raised' in out:
+            fails.append(('write_never_aborts', f"op#{i} {name}: writing the environment files raised {out['write_raised']} "
+                          '(a file that cannot be written is logged and skipped, the other tasks are written)'))
+            break
         if name in ('write', 'crash'):
             entries = op[1] if name == 'write' else op[1][:op[2]]
             for t, status, outdir, p in entries:
